@@ -497,8 +497,8 @@ def cleanupOp (sys : Sys) : CleanupOp → Sys
   | .deregister => if sys.inst.cfgSet then { sys with registered := sys.registered.filter (· ≠ sys.wd) } else sys
   | .closeRepository =>
     if sys.inst.repo then
-      { sys with handles := sys.handles.filter (fun h => !hasEntry sys.inst.entries h),
-                 inst := { sys.inst with entries := [] } }
+      -- every entry's store is closed; the entries stay in the repository (marked closed)
+      { sys with handles := sys.handles.filter (fun h => !hasEntry sys.inst.entries h) }
     else sys
   | .stopTicker => if sys.inst.ticker then { sys with inst := { sys.inst with ticker := false } } else sys
   | .closeStop => if sys.inst.stop then { sys with inst := { sys.inst with stop := false } } else sys
